@@ -199,7 +199,12 @@ class Built:
                 # the other public way to declare a model
                 cls = Object.inline(entry["name"], properties=dict(props), **kwds)
             else:
-                cls = types.new_class(entry["name"], (base,), kwds, body)
+                bases = (base,)
+                if entry.get("mixin") and entry.get("base"):
+                    # a plain (non-model) mixin next to the model base
+                    mixin = type("Mixin" + entry["name"], (), {"helper": lambda self: None})
+                    bases = (mixin, base) if entry["mixin"] == "first" else (base, mixin)
+                cls = types.new_class(entry["name"], bases, kwds, body)
             for key, val in entry.get("post", []):
                 setattr(cls, key, self.kw_value(key, val))
             self.classes[cid] = cls
